@@ -8,7 +8,8 @@ PROP = "C09"
 SPEC_MODE = "oracle"
 KEEP_PREFIX = 1
 EXTRA_MODULES = ("Sentinel.Lemmas.LeapArrayRace", "Sentinel.Lemmas.LeapArrayRaceTerm", "Sentinel.Lemmas.LeapArrayRaceOwn",
-                 "Sentinel.Lemmas.LeapArrayRaceStarted", "Sentinel.Lemmas.LeapArrayRaceRead", "Sentinel.Lemmas.LeapArrayRaceDrain")
+                 "Sentinel.Lemmas.LeapArrayRaceStarted", "Sentinel.Lemmas.LeapArrayRaceRead", "Sentinel.Lemmas.LeapArrayRaceDrain",
+                 "Sentinel.Lemmas.LeapArrayRaceNonInt")
 SIZES = {"quick": 2500, "thorough": 60000}
 BATCH = 2500
 RULE = ("one case = one schedule: a BucketLeapArray (n in 1..4 buckets, bucket length 1..500 ms) pre-filled sequentially, then a round of "
